@@ -457,6 +457,10 @@ func writeSummary(outDir string, s *Summary) error {
 
 // writeInstCases writes sharded cases files for recorded steps.
 func writeInstCases(outDir, prop, checkFn string, g63 bool, adminIPs []string, fx *Fixture, steps []StepRec, shardSize int) ([]string, error) {
+	return writeInstCasesFx(outDir, prop, checkFn, g63, adminIPs, fx, steps, shardSize)
+}
+
+func writeInstCasesFx(outDir, prop, checkFn string, g63 bool, adminIPs []string, fx *Fixture, steps []StepRec, shardSize int) ([]string, error) {
 	var files []string
 	for sh := 0; sh*shardSize < len(steps); sh++ {
 		lo, hi := sh*shardSize, (sh+1)*shardSize
